@@ -8,6 +8,7 @@ import DosModel.Model.TblsG1
 import DosModel.Proofs.ComposePrimes
 import DosModel.Proofs.ComposeCurve
 import Mathlib.FieldTheory.Finite.Basic
+import DosModel.Proofs.CodecBytes
 
 set_option linter.unusedSimpArgs false
 
@@ -214,5 +215,32 @@ theorem decode_valid (b : Bytes) (P : Pt) (h : G1.decode b = some P) : Valid P :
           cases h
           exact ⟨by omega, by omega, hc⟩
         · cases h
+
+theorem p_lt_256_32 : G1.p < 256 ^ 32 := by decide
+
+/-- the codec reads back what it writes, for every valid element -/
+theorem decode_encode (P : Pt) (hP : Valid P) : G1.decode (G1.encode P) = some P := by
+  cases P with
+  | inf =>
+    have h0 : beNat (List.replicate 32 (0 : UInt8)) = 0 := CodecBytes.beNat_replicate_zero 32
+    have e1 : (List.replicate 64 (0 : UInt8)).take 32 = List.replicate 32 0 := by decide
+    have e2 : ((List.replicate 64 (0 : UInt8)).drop 32).take 32 = List.replicate 32 0 := by decide
+    simp only [G1.encode, G1.decode, List.length_replicate, e1, e2, h0]
+    simp [Nat.ne_of_gt p_pos]
+  | aff x y =>
+    obtain ⟨hx, hy, hc⟩ := hP
+    have hlen : (natBE 32 x ++ natBE 32 y).length = 64 := by
+      rw [List.length_append, CodecBytes.natBE_length, CodecBytes.natBE_length]
+    have e1 : (natBE 32 x ++ natBE 32 y).take 32 = natBE 32 x := by
+      rw [List.take_left' (CodecBytes.natBE_length 32 x)]
+    have e2 : ((natBE 32 x ++ natBE 32 y).drop 32).take 32 = natBE 32 y := by
+      rw [List.drop_left' (CodecBytes.natBE_length 32 x), List.take_of_length_le (by rw [CodecBytes.natBE_length])]
+    have bx : beNat (natBE 32 x) = x := CodecBytes.beNat_natBE 32 x (Nat.lt_trans hx p_lt_256_32)
+    have by' : beNat (natBE 32 y) = y := CodecBytes.beNat_natBE 32 y (Nat.lt_trans hy p_lt_256_32)
+    have hne : ¬ (x = 0 ∧ y = 0) := by
+      rintro ⟨rfl, rfl⟩
+      revert hc; decide
+    simp only [G1.encode, G1.decode, hlen, e1, e2, bx, by']
+    simp [Nat.not_le.2 hx, Nat.not_le.2 hy, hne, hc]
 
 end Dos.Compose.TG1
